@@ -84,10 +84,30 @@ package policy
 //@           invariant wfGlob(pattern, 0) == wfGlob(pattern, i)
 //@           decreases len(pattern) - i
 //@
-//@ // decoding a policy: only the integer-bounds clause is under contract here (C10); the shape of the
-//@ // returned statements is the subject of C14
+//@ // ---- C14 / C09: decoding a policy from IPLD -------------------------------------------------------------
+//@ // stmtKind names the operator a decoded statement carries (the result of its Kind method)
+//@ pure func stmtKind(s Statement) string =
+//@     s is equality ? s.(equality).kind : (s is negation ? "not" : (s is connective ? s.(connective).kind : (s is wildcard ? "like" : (s is quantifier ? s.(quantifier).kind : ""))))
 //@ func FromIPLD
-//@   trusted
 //@   requires node != nil
-//@   ensures result1 == nil ==> intsInBounds(node)
-//@   ensures result1 == nil ==> forall j int :: 0 <= j && j < len(result0) ==> result0[j] != nil
+//@   use node_sizes, node_list_children
+//@   ensures [C10] bounds: result1 == nil ==> intsInBounds(node)
+//@   ensures [C14,C09] shape: result1 == nil ==> nodeKind(node) == datamodel.Kind_List && len(result0) == listLen(node) && (forall j int :: 0 <= j && j < len(result0) ==> result0[j] != nil && stmtKind(result0[j]) == nodeStr(listElem(listElem(node, j), 0)))
+//@ // one statement: a list [op, ...] of 2 or 3 elements; the decoded statement carries exactly that operator
+//@ func statementFromIPLD
+//@   requires node != nil
+//@   use node_sizes, node_list_children, node_string_kind
+//@   ensures [C14] shape: result1 == nil ==> result0 != nil && nodeKind(node) == datamodel.Kind_List && (listLen(node) == 2 || listLen(node) == 3) && stmtKind(result0) == nodeStr(listElem(node, 0))
+//@   ensures [C14] rejected: result1 != nil ==> result0 == nil
+//@   ensures [C09] total: true
+//@   decreases nodeSize(node), 0
+//@ func statementsFromIPLD
+//@   requires node != nil
+//@   use node_sizes, node_list_children
+//@   ensures [C14] shape: result1 == nil ==> nodeKind(node) == datamodel.Kind_List && len(result0) == listLen(node) && (forall j int :: 0 <= j && j < len(result0) ==> result0[j] != nil && stmtKind(result0[j]) == nodeStr(listElem(listElem(node, j), 0)))
+//@   ensures [C14] rejected: result1 != nil ==> result0 == nil
+//@   ensures [C09] total: true
+//@   decreases nodeSize(node), 1
+//@   loop 0: invariant 0 <= i && i <= listLen(node) && nodeKind(node) == datamodel.Kind_List && len(res) == listLen(node) && fresh(res)
+//@   loop 0: invariant forall j int :: 0 <= j && j < i ==> res[j] != nil && stmtKind(res[j]) == nodeStr(listElem(listElem(node, j), 0))
+//@           decreases listLen(node) - i
